@@ -269,8 +269,8 @@ def nontrivial(res):
     return bool(classify(res, None))
 
 
-PLAN = e1prop.Plan('C10', WRAP_ROWS, cfgs=('v6', 'v7', 'v5', 'v7-tee'), classify=classify, nontrivial=nontrivial, tweak_case=wrap_tweak,
-                   case_kw=lambda rng, row: dict({'mpu': False, 'mmu': False, 'e': 0, 'code_base': rng.choice((0, 0xFFFFFF00, 0xFFFF0000, 0x8000, 0x7FFFFF80))},
+PLAN = e1prop.Plan('C10', WRAP_ROWS, cfgs=('v6', 'v7', 'v5', 'v7-tee', 'v7-virt'), classify=classify, nontrivial=nontrivial, tweak_case=wrap_tweak,
+                   case_kw=lambda rng, row: dict({'mpu': False, 'mmu': False, 'e': 1 if rng.random() < 0.25 else 0, 'code_base': rng.choice((0, 0xFFFFFF00, 0xFFFF0000, 0x8000, 0x7FFFFF80))},
                                                 **({'mode': rng.choice(('svc', 'irq', 'fiq', 'abt', 'und')), 'code_base': 0x8000} if row.name in RETURN_ROWS else {})))
 
 
@@ -305,8 +305,8 @@ def classify_all(res, case):
     return out
 
 
-PLAN_ALL = e1prop.Plan('C10', OTHER_ROWS, cfgs=('v6', 'v7', 'v7r', 'v5', 'v7-tee'), classify=classify_all, nontrivial=lambda res: bool(classify_all(res, None)),
-                       tweak_case=edge_tweak, case_kw=lambda rng, row: {'mpu': False, 'mmu': False, 'e': 0})
+PLAN_ALL = e1prop.Plan('C10', OTHER_ROWS, cfgs=('v6', 'v7', 'v7r', 'v5', 'v7-tee', 'v7-virt'), classify=classify_all, nontrivial=lambda res: bool(classify_all(res, None)),
+                       tweak_case=edge_tweak, case_kw=lambda rng, row: {'mpu': False, 'mmu': False, 'e': 1 if rng.random() < 0.25 else 0})
 
 
 def run(ctx):
